@@ -371,7 +371,8 @@ def a_h11c_callers_set_stream(prog):
 
 
 def a_socks_sets_stream(prog):
-    f = prog.body_of(prog.one(r"^listeners::socks::SocksListener::handshake$"))
+    from . import shared as _sh
+    f = _sh.fn_calling(prog, r"auth::AuthData::check$", "listeners/socks.rs")
     ss = [c.bb for c in f.calls if re.search(r"context::Context::set_client_stream$", c.name or "")]
     enq = [c for c in f.calls if re.search(r"context::ContextRefOps::enqueue$", c.path or "")]
     if not ss or not enq:
@@ -502,3 +503,34 @@ def a_scope_shape(prog):
     if bad:
         return False, "Value::as_vec/as_str used outside Scope: %s" % bad[:3]
     return True, "let-bindings reach Scope only as [[name, value]..] built by op_let/op_assign"
+
+
+# --------------------------------------------------------------------------- start-up
+
+def a_main_get_mut_before_clone(prog):
+    m = prog.body_of(prog.one(r"^main$"))
+    gm = [c for c in m.calls if re.search(r"sync::Arc::<T, A>::get_mut$|sync::Arc::<T>::get_mut$", c.path or "")]
+    clones = [c for c in m.calls if re.search(r"clone::Clone::clone$", c.path or "") and c.targs and "Arc<GlobalState" in m.ty(c.targs[0])["s"]]
+    if not gm:
+        return False, "no Arc::get_mut in main"
+    for g in gm:
+        for c in clones:
+            if m.dominates(c.bb, g.bb) or g.bb in m.reach_from([c.bb]):
+                return False, "main clones the state Arc (line %s) before Arc::get_mut (line %s)" % (c.line, g.line)
+    return True, "%d Arc::get_mut calls in main precede every clone of the state" % len(gm)
+
+
+def a_set_rules_callers_fresh(prog):
+    callers = [c for c in prog.callers_of(r"^GlobalState::set_rules$") if c.fn.crate == "redproxy_rs"]
+    if not callers:
+        return False, "set_rules has no caller"
+    for c in callers:
+        tr = c.fn.trace(op_base(c.args[1]), through_calls=[r"Try::branch$"])
+        src = [info for k, info in tr if k in ("call",)]
+        ok = any(re.search(r"rules::from_config$", (x.name or "")) for x in src) or "f:0" in str(tr) or "Json" in c.fn.local_ty_s(op_base(c.args[1]))
+        if not ok:
+            # value extracted from `?` of from_config / field of the Json extractor
+            names = [c.fn.local_name(info[0]) for k, info in tr if k in ("place", "ref")]
+            if not any(n in ("rules",) for n in names if n):
+                return False, "set_rules at %s receives rules that are not freshly deserialised" % c.where()
+    return True, "set_rules is called with freshly deserialised rules (%d call sites)" % len(callers)
